@@ -9,8 +9,8 @@ TABLE_ENTRIES = [
 ]
 
 
-def run(chk, tier):
-    prog, T = typestate.engine("default")
+def run_config(chk, tier, cfgname):
+    prog, T = typestate.engine(cfgname)
     chk.explain("C02: objects leave White/WhiteWeak only through strong/weak tracing and resurrect (colour-move "
                 "frame conditions on every extracted table; every set_color call is confined below an analysed "
                 "primitive); the sweep is total (cursor := list head when sweeping begins, advanced in every row, "
@@ -30,7 +30,7 @@ def run(chk, tier):
     common.protocol_rows(chk, prog, "finish_cycle-whole-cycles", ["finish_cycle"])
     typestate.report_automaton(chk, ["S3", "S2"])
     # shell clause as typestate paths
-    A = typestate.auto("default")
+    A = typestate.auto(cfgname)
     shell_made = [t for t in A.trans if t.op == "collector:sweep_one" and t.src[1] == "WW" and t.src[2] == 1
                   and t.dst not in ("FREED", "UNLINKED") and t.dst[1] == "W" and t.dst[2] == 0]
     shell_freed = [t for t in A.trans if t.op == "collector:sweep_one" and t.src[1] == "W" and t.src[2] == 0
@@ -43,3 +43,17 @@ def run(chk, tier):
     chk.inst("survivor-reset", "(B) -sweep-> (W)", bool(survivors) and all(
         t.dst not in ("FREED", "UNLINKED") and t.dst[1] == "W" for t in survivors),
         detail="a marked object is not reset to White by the sweep")
+
+
+def run(chk, tier):
+    cfgs = typestate.configs(tier)
+    chk.extra["feature_configs"] = cfgs
+    for c in cfgs:
+        chk.cfg = c
+        n_expl = len(chk.explanation)
+        nd = len(chk.not_decided)
+        run_config(chk, tier, c)
+        if c != cfgs[0]:
+            del chk.explanation[n_expl:]
+            del chk.not_decided[nd:]
+    chk.cfg = None
